@@ -5,13 +5,13 @@ import (
 	"gobmc/vrt"
 )
 
-// H_C19_PadRoundTrip: for every x (len <= 40, arbitrary spare capacity) PadInPlace(x) has a
+// H_C19_PadRoundTrip: for every x (len <= 72, arbitrary spare capacity; length and capacity are case split, bytes symbolic) PadInPlace(x) has a
 // length that is a positive multiple of 32, starts with x, and unpads to exactly x.
 func H_C19_PadRoundTrip() {
-	x := vrt.Bytes("x", 40, 80)
+	x := vrt.Bytes("x", 72, 112)
 	n := len(x)
 	// keep a private copy: PadInPlace may write into x's spare capacity
-	orig := make([]byte, 40)
+	orig := make([]byte, 72)
 	for i := 0; i < n; i++ {
 		orig[i] = x[i]
 	}
@@ -33,7 +33,7 @@ func H_C19_PadRoundTrip() {
 
 // H_C19_UnpadAny: UnpadInPlace never panics or over-reads on any input.
 func H_C19_UnpadAny() {
-	x := vrt.Bytes("x", 40, 40)
+	x := vrt.Bytes("x", 72, 72)
 	u, err := padding.UnpadInPlace(x)
 	if err == nil {
 		vrt.Assert(len(u) <= len(x), "unpad-within")
